@@ -35,6 +35,7 @@ CONSTANTS Slots,      \* key slots (positive integers)
           ClaimSet,   \* claims values (positive integers)
           NoteSet,    \* footer notes
           MaxNet, MaxBlobs,
+          MaxClock,   \* the verifier's clock runs 0..MaxClock; a token expires ttl ticks after it was issued
           Weaken      \* "none": the design;  "footer" | "label" | "key": the design with one guarantee of L0 withdrawn (spec/neg)
 
 VARIABLES gen,        \* slot -> "none" | "local" | "pair": key material that exists
@@ -44,9 +45,10 @@ VARIABLES gen,        \* slot -> "none" | "local" | "pair": key material that ex
           net,        \* tokens ever sent
           issued,     \* what the owners of the slots sealed: [kind, key, claims, note]
           accepted,   \* what the verifier released
+          clock,      \* the current time (issuer and verifier share it)
           last        \* outcome of the last action
 
-vars == <<gen, store, via, blobs, net, issued, accepted, last>>
+vars == <<gen, store, via, blobs, net, issued, accepted, clock, last>>
 
 Kinds == {"local", "public"}
 Material(kind) == IF kind = "local" THEN "local" ELSE "pair"
@@ -60,7 +62,7 @@ Act(a, s, k, u, i, j, c, n, t) == [a |-> a, s |-> s, k |-> k, u |-> u, i |-> i, 
 Init ==
   /\ gen = [s \in Slots |-> "none"]
   /\ store = {} /\ via = {} /\ blobs = << >> /\ net = << >>
-  /\ issued = {} /\ accepted = {}
+  /\ issued = {} /\ accepted = {} /\ clock = 0
   /\ last = Done(TRUE)
 
 \* ---- keys ------------------------------------------------------------------
@@ -68,7 +70,7 @@ GenKey(s, m) ==
   /\ gen[s] = "none" /\ m \in {"local", "pair"}
   /\ gen' = [gen EXCEPT ![s] = m]
   /\ last' = Done(TRUE)
-  /\ UNCHANGED <<store, via, blobs, net, issued, accepted>>
+  /\ UNCHANGED <<store, via, blobs, net, issued, accepted, clock>>
 
 \* ---- key distribution --------------------------------------------------------
 \* form: plain | pie | pw | seal;  kind: what is inside (local | secret | public);  label: what the header says;
@@ -79,7 +81,7 @@ Send(b) ==
   /\ Len(blobs) < MaxBlobs
   /\ blobs' = Append(blobs, b)
   /\ last' = Done(TRUE)
-  /\ UNCHANGED <<gen, store, via, net, issued, accepted>>
+  /\ UNCHANGED <<gen, store, via, net, issued, accepted, clock>>
 
 SendPlain(s) == gen[s] = "pair" /\ Send(Blob("plain", "public", s, "own"))
 \* the attacker does not know the pre-shared key or password
@@ -107,35 +109,36 @@ Import(i) ==
           /\ via' = via \cup {[kind |-> e.kind, key |-> e.key, form |-> b.form]}
           /\ last' = Done(TRUE)
      ELSE /\ last' = Done(FALSE) /\ UNCHANGED <<store, via>>
-  /\ UNCHANGED <<gen, blobs, net, issued, accepted>>
+  /\ UNCHANGED <<gen, blobs, net, issued, accepted, clock>>
 
 Forget(kind, s) ==
   /\ [kind |-> kind, key |-> s] \in store
   /\ store' = store \ {[kind |-> kind, key |-> s]}
   /\ via' = {v \in via : ~(v.kind = kind /\ v.key = s)}
   /\ last' = Done(TRUE)
-  /\ UNCHANGED <<gen, blobs, net, issued, accepted>>
+  /\ UNCHANGED <<gen, blobs, net, issued, accepted, clock>>
 
 \* ---- tokens ------------------------------------------------------------------
 \* head: purpose in the header;  bkind, key, claims: what the body was sealed as / with / over;
 \* (bkk, bks, bnote): the footer the body is bound to;  (fkk, fks, fnote): the footer the token carries
-Tok(kind, s, c, n, t) ==
-  [head |-> kind, bkind |-> kind, key |-> s, claims |-> c,
+Tok(kind, s, c, n, t, e) ==
+  [head |-> kind, bkind |-> kind, key |-> s, claims |-> c, exp |-> e,
    bkk |-> kind, bks |-> t, bnote |-> n, fkk |-> kind, fks |-> t, fnote |-> n]
 
 Emit(t) ==
   /\ Len(net) < MaxNet
   /\ net' = Append(net, t)
   /\ last' = Done(TRUE)
-  /\ UNCHANGED <<gen, store, via, blobs, accepted>>
+  /\ UNCHANGED <<gen, store, via, blobs, accepted, clock>>
 
 \* the owner of slot s seals claims c; an honest issuer names its own key in the footer, the attacker may name slot t
-Issue(s, kind, c, n, t) ==
-  /\ kind \in Kinds /\ c \in ClaimSet /\ n \in NoteSet
+\* the claims are built with RegisteredClaims::new(now, ttl): not valid before now, expiring ttl ticks later
+Issue(s, kind, c, n, t, ttl) ==
+  /\ kind \in Kinds /\ c \in ClaimSet /\ n \in NoteSet /\ ttl \in 0..1
   /\ gen[s] = Material(kind)
   /\ gen[t] = Material(kind)
   /\ (s # Evil => t = s)
-  /\ Emit(Tok(kind, s, c, n, t))
+  /\ Emit(Tok(kind, s, c, n, t, clock + ttl))
   /\ issued' = IF t = s THEN issued \cup {[kind |-> kind, key |-> s, claims |-> c, note |-> n]} ELSE issued
 
 Refoot(i, j) ==
@@ -154,6 +157,7 @@ VerifyOk(t) ==
   /\ t.fkk = t.head                                              \* a lid names local keys, a pid public keys
   /\ [kind |-> t.head, key |-> t.fks] \in store                  \* C13: lookup by key id
   /\ (Weaken = "key" \/ t.key = t.fks)                          \* C02: only the sealing key opens it
+  /\ t.exp >= clock                                              \* C11: Time::valid_at(now) - released only while not expired
 Verify(i) ==
   /\ i \in 1..Len(net)
   /\ LET t == net[i]
@@ -161,7 +165,13 @@ Verify(i) ==
      IF VerifyOk(t)
      THEN accepted' = accepted \cup {a} /\ last' = [ok |-> TRUE, acc |-> a]
      ELSE last' = Done(FALSE) /\ UNCHANGED accepted
-  /\ UNCHANGED <<gen, store, via, blobs, net, issued>>
+  /\ UNCHANGED <<gen, store, via, blobs, net, issued, clock>>
+
+Tick ==
+  /\ clock < MaxClock
+  /\ clock' = clock + 1
+  /\ last' = Done(TRUE)
+  /\ UNCHANGED <<gen, store, via, blobs, net, issued, accepted>>
 
 \* ---- dispatch ------------------------------------------------------------------
 Do(x) ==
@@ -173,7 +183,8 @@ Do(x) ==
     [] x.a = "TamperBlob" -> TamperBlob(x.i, x.k)
     [] x.a = "Import"     -> Import(x.i)
     [] x.a = "Forget"     -> Forget(x.k, x.s)
-    [] x.a = "Issue"      -> Issue(x.s, x.k, x.c, x.n, x.t)
+    [] x.a = "Issue"      -> Issue(x.s, x.k, x.c, x.n, x.t, x.j)
+    [] x.a = "Tick"       -> Tick
     [] x.a = "Refoot"     -> Refoot(x.i, x.j)
     [] x.a = "Relabel"    -> Relabel(x.i)
     [] x.a = "Verify"     -> Verify(x.i)
@@ -187,7 +198,8 @@ Acts ==
   \cup {Act("TamperBlob", 0, h, "", i, 0, 0, 0, 0) : h \in {"flip", "relabel"}, i \in 1..MaxBlobs}
   \cup {Act("Import", 0, "", "", i, 0, 0, 0, 0) : i \in 1..MaxBlobs}
   \cup {Act("Forget", s, k, "", 0, 0, 0, 0, 0) : s \in Slots, k \in Kinds}
-  \cup {Act("Issue", s, k, "", 0, 0, c, n, t) : s \in Slots, k \in Kinds, c \in ClaimSet, n \in NoteSet, t \in Slots}
+  \cup {Act("Issue", s, k, "", 0, ttl, c, n, t) : s \in Slots, k \in Kinds, c \in ClaimSet, n \in NoteSet, t \in Slots, ttl \in 0..1}
+  \cup {Act("Tick", 0, "", "", 0, 0, 0, 0, 0)}
   \cup {Act("Refoot", 0, "", "", i, j, 0, 0, 0) : i \in 1..MaxNet, j \in 1..MaxNet}
   \cup {Act("Relabel", 0, "", "", i, 0, 0, 0, 0) : i \in 1..MaxNet}
   \cup {Act("Verify", 0, "", "", i, 0, 0, 0, 0) : i \in 1..MaxNet}
@@ -204,7 +216,8 @@ NextD ==
   \/ \E i \in 1..MaxBlobs, h \in {"flip", "relabel"} : TamperBlob(i, h)
   \/ \E i \in 1..MaxBlobs : Import(i)
   \/ \E k \in Kinds, s \in Slots : Forget(k, s)
-  \/ \E s \in Slots, k \in Kinds, c \in ClaimSet, n \in NoteSet, t \in Slots : Issue(s, k, c, n, t)
+  \/ \E s \in Slots, k \in Kinds, c \in ClaimSet, n \in NoteSet, t \in Slots, ttl \in 0..1 : Issue(s, k, c, n, t, ttl)
+  \/ Tick
   \/ \E i \in 1..MaxNet, j \in 1..MaxNet : Refoot(i, j)
   \/ \E i \in 1..MaxNet : Relabel(i)
   \/ \E i \in 1..MaxNet : Verify(i)
@@ -229,6 +242,9 @@ ClosedChannels == \A v \in via : v.form \in {"pie", "pw"} => v.key # Evil
 ViaComplete == \A e \in store : \E v \in via : v.kind = e.kind /\ v.key = e.key
 \* a verdict is released only under a key that is in the store at that moment (revocation is immediate)
 AcceptNeedsKey == [][\A a \in accepted' \ accepted : [kind |-> a.kind, key |-> a.key] \in store]_vars
+\* nothing is released after it has expired, and time does not run backwards
+NotExpired == [][\A a \in accepted' \ accepted : \E k \in 1..Len(net) : net[k].claims = a.claims /\ net[k].exp >= clock]_vars
+ClockMonotone == [][clock' >= clock]_vars
 \* the store changes only on Import and Forget; key material never changes once generated
 GenStable == [][\A s \in Slots : gen[s] # "none" => gen'[s] = gen[s]]_vars
 =============================================================================
